@@ -28,7 +28,7 @@ static const char *w_counter_names[] = { "pop_on_empty", "pop_with_tied_maxima",
 
 struct cfg { int n, cmp; const char *pool; };
 static const struct cfg quick_cfgs[] = { { 8, 0, "distinct" }, { 8, 0, "paired" }, { 7, 0, "allequal" }, { 8, 1, "distinct" }, { 7, 1, "paired" }, { 7, 2, "distinct" }, { 7, 1, "heavy" }, { 7, 3, "paired" } };
-static const struct cfg thorough_cfgs[] = { { 10, 0, "distinct" }, { 10, 0, "paired" }, { 8, 0, "allequal" }, { 10, 1, "distinct" }, { 10, 1, "paired" }, { 9, 2, "distinct" }, { 9, 1, "heavy" }, { 9, 2, "paired" }, { 8, 1, "allequal" }, { 10, 3, "paired" }, { 10, 3, "distinct" } };
+static const struct cfg thorough_cfgs[] = { { 10, 0, "distinct" }, { 10, 0, "paired" }, { 8, 0, "allequal" }, { 10, 1, "distinct" }, { 10, 1, "paired" }, { 9, 2, "distinct" }, { 9, 1, "heavy" }, { 9, 2, "paired" }, { 8, 1, "allequal" }, { 10, 3, "paired" }, { 10, 3, "distinct" } , { 12, 0, "distinct" }, { 12, 1, "paired" }, { 11, 2, "paired" }, { 11, 3, "distinct" } };
 static const struct cfg *cfgs(int thorough, int *n)
 {
     if (thorough) { *n = (int)(sizeof thorough_cfgs / sizeof thorough_cfgs[0]); return thorough_cfgs; }
